@@ -13,10 +13,16 @@ BUILT = {
          "trusted: harness as above; infinite adversarial loss schedules are out of reach; idle timeout disabled"),
  "C05": ("simnet", "independent credit ledger kept by the wire observer for the receiver of the credit; every STREAM/RESET_STREAM leaving a sender is checked against stream, connection and stream-count limits that actually reached it; send_window bound via probe",
          "trusted: independent wire decoder (wire.rs); SimCrypto only (frames visible); 0-RTT limits are C17's"),
+ "C08": ("simnet", "connections terminated at a generated instant by close() of either/both applications, a path blackhole, a stateless reset with the exact token, or nothing (idle timeout / keep-alive); exactly-once ConnectionLost with an explained reason, none for a local close, CONNECTION_CLOSE in the first transmit after close(), Drained within 3 PTO exactly once, endpoint forgets the connection and its CIDs, idle-timeout bounds, keep-alive holds",
+         "trusted: harness; 3*PTO taken from the probe; pad_to_mtu, forced key updates and zero-length-CID+Retry (known findings) excluded by construction; protocol-error terminations belong to C03/C06"),
  "C12": ("simnet+ctrl", "congestion gate checked around every poll_transmit (bytes in flight vs window read through the probe) with the documented exemptions, cumulative probe budget, in-flight balance at forced quiescence, no loss on clean paths; controller call-history model for window >= 2 datagrams",
          "trusted: verif-hooks probe values; scripted controller implements the public Controller trait"),
  "C13": ("simnet", "per-poll_transmit size oracle against the MTU estimate read immediately before the call, single-MTU-probe exemption (shape, bounds, no second probe), GSO segment shape, Initial/path-validation padding, loss-probe clamp, MTU estimate rises only with a delivered datagram of that size, recovery after black hole",
          "trusted: probe values; link MTU threshold >= configured min_mtu"),
+ "C14": ("tokens", "model-based histories of BloomTokenLog (Set->Bloom conversion, both roll-over branches, fingerprint collisions) and TokenMemoryCache (all capacities incl. 0, LRU eviction): Ok never twice for one nonce inside the validity window, every take() was inserted and at most as often; [server-side token presentation model and Retry/CID-echo tampering: in progress]",
+         "trusted: reference models; contract derived from module docs and the caller in token.rs"),
+ "C20": ("simnet", "metamorphic replay relations on generated histories: R1 identical replay, R2 all instants shifted by a constant (1 us .. 10 years), R3 spurious handle_timeout/poll_transmit calls inserted; byte-exact output traces compared; extra calls return nothing; timeout service converges at one instant; silence after Drained",
+         "trusted: harness; byte-exact under SimCrypto with seeded CID generator, reduced trace otherwise; TLS randomness excluded"),
  "C16": ("simnet", "datagram payload identity / at-most-once at recv(), oldest-first receive-buffer reference model fed with frames the connection reports processed, send() result model, send_buffer_space, max_size bounds, wire order, DatagramsUnblocked",
          "trusted: harness models; buffer model only under SimCrypto"),
 }
